@@ -14,6 +14,7 @@ where
 {
     let k: Key<V, K> = keys::try_key::<V, K>(key).ok_or(PasetoError::InvalidKey)?;
     let w = keys::try_key::<V, Local>(with).ok_or(PasetoError::InvalidKey)?;
+    crate::perturb::between();
     // wrap a clone (wrap_pie consumes the key; cloning to keep the original is the natural call pattern)
     Ok(k.clone().wrap_pie(&w.clone())?.to_string())
 }
@@ -21,6 +22,7 @@ where
 pub fn pie_unwrap<V: Full + HasKey<K>, K: SealingKey>(s: &str, with: &[u8]) -> Result<Vec<u8>, PasetoError> {
     let w = keys::try_key::<V, Local>(with).ok_or(PasetoError::InvalidKey)?;
     let p: PieWrappedKey<V, K> = s.parse()?;
+    crate::perturb::between();
     Ok(keys::key_bytes(&p.unwrap(&w.clone())?))
 }
 
@@ -29,6 +31,7 @@ where
     <V as HasKey<K>>::Key: Clone,
 {
     let k: Key<V, K> = keys::try_key::<V, K>(key).ok_or(PasetoError::InvalidKey)?;
+    crate::perturb::between();
     Ok(match params {
         Some(p) => k.clone().password_wrap_with_params(pass, p)?,
         None => k.clone().password_wrap(pass)?,
@@ -38,6 +41,7 @@ where
 
 pub fn pw_unwrap<V: Full + HasKey<K>, K: SealingKey>(s: &str, pass: &[u8]) -> Result<Vec<u8>, PasetoError> {
     let p: PasswordWrappedKey<V, K> = s.parse()?;
+    crate::perturb::between();
     Ok(keys::key_bytes(&p.unwrap(pass)?))
 }
 
@@ -49,12 +53,14 @@ pub fn pw_params<V: Full + HasKey<K>, K: SealingKey>(s: &str) -> Result<Vec<u8>,
 pub fn seal<V: Full>(key: &[u8], to: &[u8]) -> Result<String, PasetoError> {
     let k = keys::try_key::<V, Local>(key).ok_or(PasetoError::InvalidKey)?;
     let pk = keys::try_key::<V, PkePublic>(to).ok_or(PasetoError::InvalidKey)?;
+    crate::perturb::between();
     Ok(k.clone().seal(&pk.clone())?.to_string())
 }
 
 pub fn unseal<V: Full>(s: &str, with: &[u8]) -> Result<Vec<u8>, PasetoError> {
     let sk = keys::try_key::<V, PkeSecret>(with).ok_or(PasetoError::InvalidKey)?;
     let p: SealedKey<V> = s.parse()?;
+    crate::perturb::between();
     Ok(keys::key_bytes(&p.unseal(&sk.clone())?))
 }
 
